@@ -25,6 +25,7 @@
  * next bytes of that slot's own source.
  */
 #include <stdio.h>
+#include <sys/time.h>
 #include <stdlib.h>
 #include <string.h>
 #include <errno.h>
@@ -412,13 +413,22 @@ static int is_num(const char *s)
 	return s != NULL && s[0] >= '0' && s[0] <= '9';
 }
 
+static void verif_watchdog(int cpu_s, int wall_s)
+{
+	/* a library call that spins is cut by the CPU-time limit (independent of how loaded the machine is); one that sleeps for
+	 * ever by the generous wall-clock limit */
+	struct itimerval it = { { 0, 0 }, { cpu_s, 0 } };
+	setitimer(ITIMER_PROF, &it, NULL);
+	alarm(wall_s);
+}
+
 int main(void)
 {
 	static char line[8192];
 	int k;
 
 	setvbuf(stdout, NULL, _IOFBF, 1 << 16);
-	alarm(60);	/* watchdog: a library call that does not return ends the run with SIGALRM */
+	verif_watchdog(120, 300);
 	iv_init();
 	while (fgets(line, sizeof(line), stdin) != NULL) {
 		char *save = NULL;
